@@ -585,7 +585,7 @@ def run_unit(job, spec):
         o = outputs_of(p)
         H = p.constraints()
         dom = p.notes.get("dom", [])
-        pp = RS.PathProver(u, H)
+        pp = RS.PathProver(u, H, always=len(p.assume))
         # leaf side conditions: sqrt/log arguments in their domain
         if dom and spec.PID == "C03":
             pp.prove("leaf-domain", z3.And(*[c for _l, c in dom]), handler(scn, "defined", o, spec))
